@@ -260,3 +260,12 @@ Proof.
   unfold get_variable. rewrite Hs, N1, N2. cbn [negb]. unfold scalar_get, st_set. cbn [s_scalars].
   rewrite alookup_aupdate_same. reflexivity.
 Qed.
+
+(* evaluate(name) and get_variable(name) return the same value, in every state *)
+Theorem evaluate_agrees E st name sg : scalar_name name sg ->
+  exists v, get_variable E st name 0 = Ok v /\ evaluate st name [] = (st, Ok v).
+Proof.
+  intros Hn. pose proof (scalar_sigil_explicit _ _ Hn) as Hs. destruct Hn as (H1 & H2 & H3).
+  exists (to_value sg (scalar_get st (py_upper name))).
+  unfold get_variable, evaluate. rewrite Hs, H1, H2. cbn [negb]. rewrite convert_none. split; reflexivity.
+Qed.
